@@ -189,6 +189,7 @@ type session struct {
 	tally   map[string]int // every message received so far, by command
 	getdata [][]byte       // payloads of the getdata messages received so far
 
+	lastTx        *wire.MsgTx         // the transaction txAgain / invSeen refer to
 	altHeaders    *headers.Repository // repository behind the alternate header handler, if one is installed
 	wanted        []byte              // the requested block (payload of its block message)
 	blockCalls    int32
@@ -430,7 +431,22 @@ func (s *session) build(class string) []byte {
 		}
 		return wireMessage(m)
 	case "tx":
-		return wireMessage(s.newTx())
+		s.lastTx = s.newTx()
+		return wireMessage(s.lastTx)
+	case "txAgain":
+		// the transaction of the last tx message once more (the first one if there was none)
+		if s.lastTx == nil {
+			s.lastTx = s.newTx()
+		}
+		return wireMessage(s.lastTx)
+	case "invSeen":
+		// an inventory of exactly that transaction
+		if s.lastTx == nil {
+			s.lastTx = s.newTx()
+		}
+		m := wire.NewMsgInv()
+		m.AddInvVect(wire.NewInvVect(wire.InvTypeTx, s.lastTx.TxHash()))
+		return wireMessage(m)
 	case "block":
 		return rawMessage("block", s.blockBytes())
 	case "blockWanted":
@@ -440,7 +456,8 @@ func (s *session) build(class string) []byte {
 		return rawMessage("block", s.wanted)
 	case "extTx":
 		var b bytes.Buffer
-		s.newTx().Serialize(&b)
+		s.lastTx = s.newTx()
+		s.lastTx.Serialize(&b)
 		return extMessage("tx", b.Bytes())
 	case "extBlock":
 		return extMessage("block", s.blockBytes())
@@ -656,7 +673,7 @@ func (s *session) run(behIdx int) []sessDiv {
 		if adds > 0 {
 			gotSinks["peers.Add"] = true
 		}
-		if out["getdata"] > 0 && st.Msg == "inv" {
+		if out["getdata"] > 0 && (st.Msg == "inv" || st.Msg == "invSeen") {
 			gotSinks["AddTxID"] = true
 		}
 		if txs > 0 {
